@@ -416,6 +416,7 @@ PROPS["C02"]["corr"].append(_bufconc(["rollback_d2", "rollback", "commit"]))
 PROPS["C03"]["corr"].append(_bufconc(["evict_unread", "past_error", "shift", "consumer_closed"]))
 PROPS["C05"]["corr"].append(_bufconc(["get_pending"]))
 with_conform(PROPS["C04"], "Cleanup", "Buffer", "WaitCond")
-with_conform(PROPS["C12"], "Lifecycle", "Cleanup", "WaitCond", "Channel", "Ctx")
+with_conform(PROPS["C12"], "Lifecycle", "Cleanup", "WaitCond", "Channel", "Ctx", "LockOrder")
+PROPS["C12"]["theorems"] += ["BB.LockOrder.no_wait_cycle", "BB.LockOrder.no_deadlock_of_ranked"]
 with_conform(PROPS["C09"], "Exclusive")
 with_conform(PROPS["C10"], "Exclusive")
